@@ -55,7 +55,7 @@ pub enum Jump {
 pub enum StakeMsg {
     Delegate { v: u32, amt: SAmt, foreign: bool },
     Undelegate { v: u32, amt: SAmt, foreign: bool },
-    Redelegate { src: u32, dst: u32, amt: SAmt },
+    Redelegate { src: u32, dst: u32, amt: SAmt, #[serde(default)] foreign: bool },
 }
 
 #[derive(Clone, Debug, Serialize, Deserialize, PartialEq)]
@@ -249,11 +249,11 @@ impl Run {
                     MsgSpec::Undelegate { val: *v, coin: CoinSpec { denom: if *foreign { 1 } else { 0 }, amt: crate::ops::Amt::Abs(a as u64) } },
                 )
             }
-            StakeMsg::Redelegate { src, dst, amt } => {
+            StakeMsg::Redelegate { src, dst, amt, foreign } => {
                 let a = self.resolve_amt(d, *src, amt);
                 (
-                    StakingMsg::Redelegate { src_validator: self.validator(*src), dst_validator: self.validator(*dst), amount: coin(a, DENOM) }.into(),
-                    MsgSpec::Redelegate { src: *src, dst: *dst, coin: CoinSpec { denom: 0, amt: crate::ops::Amt::Abs(a as u64) } },
+                    StakingMsg::Redelegate { src_validator: self.validator(*src), dst_validator: self.validator(*dst), amount: coin(a, den(*foreign)) }.into(),
+                    MsgSpec::Redelegate { src: *src, dst: *dst, coin: CoinSpec { denom: if *foreign { 1 } else { 0 }, amt: crate::ops::Amt::Abs(a as u64) } },
                 )
             }
         }
@@ -293,7 +293,10 @@ impl Run {
                 *shown.entry(*v as usize).or_insert(0) -= a;
                 true
             }
-            StakeMsg::Redelegate { src, dst, amt } => {
+            StakeMsg::Redelegate { src, dst, amt, foreign } => {
+                if *foreign {
+                    return false;
+                }
                 let a = match amt {
                     SAmt::AllShown => get(shown, *src as usize),
                     SAmt::ShownPlus(n) => get(shown, *src as usize) + *n as u128,
@@ -521,7 +524,7 @@ impl Run {
                 let fixed = match m {
                     StakeMsg::Delegate { v, foreign, .. } => StakeMsg::Delegate { v: *v, amt: SAmt::Abs(a as u64), foreign: *foreign },
                     StakeMsg::Undelegate { v, foreign, .. } => StakeMsg::Undelegate { v: *v, amt: SAmt::Abs(a as u64), foreign: *foreign },
-                    StakeMsg::Redelegate { src, dst, .. } => StakeMsg::Redelegate { src: *src, dst: *dst, amt: SAmt::Abs(a as u64) },
+                    StakeMsg::Redelegate { src, dst, foreign, .. } => StakeMsg::Redelegate { src: *src, dst: *dst, amt: SAmt::Abs(a as u64), foreign: *foreign },
                 };
                 real_msgs.push(self.to_cosmos(d, &fixed));
                 let _ = self.model_apply(d, m, &mut b, &mut sh);
@@ -1017,7 +1020,7 @@ fn gen_msg(rng: &mut Rng, nv: u32) -> StakeMsg {
     match rng.below(10) {
         0..=4 => StakeMsg::Delegate { v, amt: if rng.chance(1, 12) { SAmt::Zero } else { SAmt::Abs(if rng.chance(1, 3) { rng.range(1, 9) } else { rng.range(1, 5000) }) }, foreign: rng.chance(1, 30) },
         5..=7 => StakeMsg::Undelegate { v, amt: gen_amt(rng), foreign: rng.chance(1, 30) },
-        _ => StakeMsg::Redelegate { src: v, dst: if rng.chance(1, 30) { nv } else { rng.below(nv as u64) as u32 }, amt: gen_amt(rng) },
+        _ => StakeMsg::Redelegate { src: v, dst: if rng.chance(1, 30) { nv } else { rng.below(nv as u64) as u32 }, amt: gen_amt(rng), foreign: rng.chance(1, 15) },
     }
 }
 
